@@ -808,6 +808,177 @@ fn gen_step_case(rng: &mut Rng, i: &Instruction, words: &[BigInt]) -> StepCase {
     StepCase { mem: mem.into_iter().collect(), pc: (pc_seg, pc_off), ap, fp }
 }
 
+// ---------- leg 4: whole runs of small loaded programs ----------
+const RUN_SEG_LEN: usize = 72;
+const RUN_STEPS: usize = 14;
+
+struct RunCase {
+    mem: Vec<((usize, usize), MaybeRelocatable)>,
+    ap: usize,
+    fp: usize,
+    pc: (usize, usize),
+}
+
+/// Steps the real VM until the first error or RUN_STEPS; returns the registers after every
+/// successful step and the memory afterwards (what was inserted before a failing step's error
+/// included: the model is compared on the successful prefix only, so the memory is probed right
+/// after the last successful step).
+fn impl_run(c: &RunCase) -> (Vec<((usize, usize), usize, usize)>, Vec<((usize, usize), MaybeRelocatable)>) {
+    let mut vm = VirtualMachine::new(false, false);
+    for _ in 0..SEGS {
+        vm.add_memory_segment();
+    }
+    for ((s, o), v) in &c.mem {
+        if vm.insert_value(Relocatable::from((*s as isize, *o)), v.clone()).is_err() {
+            return (vec![], vec![]);
+        }
+    }
+    vm.set_pc(Relocatable::from((c.pc.0 as isize, c.pc.1)));
+    vm.set_ap(c.ap);
+    vm.set_fp(c.fp);
+    let probe = |vm: &VirtualMachine| {
+        let mut after = vec![];
+        for s in 0..SEGS {
+            for o in 0..RUN_SEG_LEN {
+                if let Some(v) = vm.get_maybe(&Relocatable::from((s as isize, o))) {
+                    after.push(((s, o), v));
+                }
+            }
+        }
+        after
+    };
+    let mut states = vec![];
+    let mut after = probe(&vm);
+    for _ in 0..RUN_STEPS {
+        if vm.step_instruction().is_err() {
+            break;
+        }
+        let pc = vm.get_pc();
+        if pc.segment_index < 0 {
+            break;
+        }
+        states.push(((pc.segment_index as usize, pc.offset), vm.get_ap().offset, vm.get_fp().offset));
+        after = probe(&vm);
+    }
+    (states, after)
+}
+
+/// A mostly-valid straight-line / looping / calling program over small values, loaded at (0, 0).
+fn gen_run_case(rng: &mut Rng, pool: &[Instruction]) -> (Vec<Instruction>, RunCase) {
+    let cell = |register, offset: i16| CellRef { register, offset };
+    let imm = |v: i64| BigInt::from(v);
+    let n = 3 + rng.below(6) as usize;
+    let mut prog: Vec<Instruction> = vec![];
+    // first pass: bodies with placeholder jump distances
+    for k in 0..n {
+        let inc = rng.below(4) != 0;
+        let back = |rng: &mut Rng| -(1 + rng.below(3) as i16);
+        let b = match rng.below(if k < 2 { 3 } else { 12 }) {
+            0 | 1 => InstructionBody::AssertEq(AssertEqInstruction {
+                a: cell(Register::AP, 0),
+                b: ResOperand::Immediate((imm(rng.below(9) as i64 - 2)).into()),
+            }),
+            2 => InstructionBody::AssertEq(AssertEqInstruction {
+                a: cell(Register::AP, 0),
+                b: ResOperand::Deref(cell(Register::FP, back(rng) - 1)),
+            }),
+            3 | 4 => InstructionBody::AssertEq(AssertEqInstruction {
+                a: cell(Register::AP, 0),
+                b: ResOperand::BinOp(BinOpOperand {
+                    op: if rng.bool() { Operation::Add } else { Operation::Mul },
+                    a: cell(Register::AP, back(rng)),
+                    b: if rng.bool() {
+                        DerefOrImmediate::Deref(cell(Register::AP, back(rng)))
+                    } else {
+                        DerefOrImmediate::Immediate(imm(rng.below(7) as i64 - 3).into())
+                    },
+                }),
+            }),
+            // an operand to be deduced: [ap - 1] = [ap + 0] op imm
+            5 => InstructionBody::AssertEq(AssertEqInstruction {
+                a: cell(Register::AP, -1),
+                b: ResOperand::BinOp(BinOpOperand {
+                    op: if rng.bool() { Operation::Add } else { Operation::Mul },
+                    a: cell(Register::AP, 0),
+                    b: DerefOrImmediate::Immediate(imm(1 + rng.below(4) as i64).into()),
+                }),
+            }),
+            6 => InstructionBody::Jump(JumpInstruction {
+                target: DerefOrImmediate::Immediate(imm(0).into()),
+                relative: true,
+            }),
+            7 => InstructionBody::Jnz(JnzInstruction {
+                jump_offset: DerefOrImmediate::Immediate(imm(0).into()),
+                condition: cell(Register::AP, -1),
+            }),
+            8 => InstructionBody::Call(CallInstruction {
+                target: DerefOrImmediate::Immediate(imm(0).into()),
+                relative: true,
+            }),
+            9 => InstructionBody::Ret(RetInstruction {}),
+            10 => InstructionBody::AddAp(AddApInstruction {
+                operand: ResOperand::Immediate(imm(rng.below(3) as i64).into()),
+            }),
+            _ => rng.pick(pool).body.clone(),
+        };
+        let inc = match b {
+            InstructionBody::Call(_) | InstructionBody::Ret(_) | InstructionBody::AddAp(_) => false,
+            _ => inc,
+        };
+        prog.push(Instruction::new(b, inc));
+    }
+    // second pass: immediate jump distances to instruction boundaries (sometimes off by one word)
+    let mut starts = vec![0i64];
+    for i in &prog {
+        starts.push(starts.last().unwrap() + i.body.op_size() as i64);
+    }
+    for k in 0..n {
+        let here = starts[k];
+        let tgt = starts[rng.below(n as u64 + 1) as usize] + if rng.below(12) == 0 { 1 } else { 0 };
+        let d = imm(tgt - here);
+        match &mut prog[k].body {
+            InstructionBody::Jump(j) if j.relative => {
+                if let DerefOrImmediate::Immediate(v) = &mut j.target {
+                    if v.value.is_zero() { *v = d.into(); }
+                }
+            }
+            InstructionBody::Jnz(j) => {
+                if let DerefOrImmediate::Immediate(v) = &mut j.jump_offset {
+                    if v.value.is_zero() { *v = d.into(); }
+                }
+            }
+            InstructionBody::Call(j) if j.relative => {
+                if let DerefOrImmediate::Immediate(v) = &mut j.target {
+                    if v.value.is_zero() { *v = d.into(); }
+                }
+            }
+            _ => {}
+        }
+    }
+    let mut mem: std::collections::BTreeMap<(usize, usize), MaybeRelocatable> = Default::default();
+    let mut at = 0usize;
+    for i in &prog {
+        let (enc, _) = impl_encode(i);
+        let ws = enc.unwrap_or_else(|| vec![BigInt::from(0)]);
+        for w in ws {
+            mem.insert((0, at), MaybeRelocatable::Int(bigint_to_felt(&w)));
+            at += 1;
+        }
+    }
+    let fp = 6 + rng.below(4) as usize;
+    let rel = |s: isize, o: usize| MaybeRelocatable::RelocatableValue(Relocatable::from((s, o)));
+    for o in 0..fp.saturating_sub(2) {
+        mem.insert((1, o), if rng.below(5) == 0 { rand_value(rng) } else { MaybeRelocatable::Int(Felt252::from(rng.below(6))) });
+    }
+    mem.insert((1, fp - 2), rel(1, 2 + rng.below(3) as usize));
+    mem.insert((1, fp - 1), rel(0, starts[rng.below(n as u64 + 1) as usize] as usize));
+    // now and then a cell ahead of ap is already known (a later assertion may then conflict)
+    if rng.below(4) == 0 {
+        mem.insert((1, fp + rng.below(4) as usize), MaybeRelocatable::Int(Felt252::from(rng.below(4))));
+    }
+    (prog, RunCase { mem: mem.into_iter().collect(), ap: fp, fp, pc: (0, 0) })
+}
+
 fn main() {
     quiet_panics();
     let args: Vec<String> = std::env::args().collect();
@@ -998,6 +1169,30 @@ fn main() {
         produced += 1;
     }
 
+    // ---------- leg 4: whole runs (fetch / decode / execute / insert, up to RUN_STEPS steps) ----------
+    let mut run_lines = vec![];
+    let n_runs = if thorough { 6000 } else { 600 };
+    let mut run_steps_hist = vec![0usize; RUN_STEPS + 1];
+    for _ in 0..n_runs {
+        let (_prog, c) = gen_run_case(&mut rng, &stone);
+        let (states, after) = impl_run(&c);
+        run_steps_hist[states.len()] += 1;
+        let cells = |m: &Vec<((usize, usize), MaybeRelocatable)>| {
+            coq_list(&m.iter().map(|((s, o), v)| format!("(({}, {}), {})", s, o, mr(v))).collect::<Vec<_>>())
+        };
+        run_lines.push(format!(
+            "({}, (({}, {}), {}, {}), {}%nat, {}, {})",
+            cells(&c.mem),
+            c.pc.0,
+            c.pc.1,
+            c.ap,
+            c.fp,
+            RUN_STEPS,
+            coq_list(&states.iter().map(|(pc, ap, fp)| format!("(({}, {}), {}, {})", pc.0, pc.1, ap, fp)).collect::<Vec<_>>()),
+            cells(&after)
+        ));
+    }
+
     // ---------- write shards ----------
     let shard = |name: &str, ty: &str, lines: &[String], per: usize| -> usize {
         let mut n = 0;
@@ -1018,14 +1213,17 @@ fn main() {
     let a = shard("enc", "enc_case", &enc_lines, 700);
     let b = shard("dec", "dec_case", &dec_lines, 700);
     let c = shard("step", "step_case", &step_lines, 150);
+    let c = c + shard("run", "run_case", &run_lines, 60);
     let summary = format!(
-        "{{\"enc_cases\": {}, \"enc_rejected_by_impl\": {}, \"dec_cases\": {}, \"dec_ok\": {}, \"step_cases\": {}, \"step_ok\": {}, \"shards\": {}, \"oracle_failures\": {}, \"macro_spellings\": {}}}",
+        "{{\"enc_cases\": {}, \"enc_rejected_by_impl\": {}, \"dec_cases\": {}, \"dec_ok\": {}, \"step_cases\": {}, \"step_ok\": {}, \"run_cases\": {}, \"run_steps_histogram\": {:?}, \"shards\": {}, \"oracle_failures\": {}, \"macro_spellings\": {}}}",
         enc_lines.len(),
         n_rejected,
         dec_lines.len(),
         n_dec_ok,
         step_lines.len(),
         n_step_ok,
+        run_lines.len(),
+        run_steps_hist,
         a + b + c,
         oracle_failures.len() + size_failures.len(),
         n_macro
